@@ -21,6 +21,7 @@ import DW.Lemmas.GenDump
 import DW.Lemmas.GenDumpPy
 import DW.Lemmas.GenLoad
 import DW.Lemmas.GenLoadPy
+import DW.Lemmas.GenEnv
 import DW.Generated.Tables
 
 namespace DW.Props.C15
@@ -256,6 +257,64 @@ example : ((renderList 1 (genBody (fun _ => true)
      "    field='r'; init_kwargs[field] = field_to_parser[field](safe_get(o, ('k',)))",
      "  except ParseError as e:",
      "    e.class_name, e.field_name, e.json_object, e.fields = cls, field, o, cls_fields"] := by
+  decide +kernel
+
+/-! ### the generator of an EnvWizard class's `__init__`, for every class -/
+
+open DW.GenEnv in
+/-- **C15 (the constructor generator of EnvWizard, every class).**  Whatever the class looks like — `Meta.env_file` set or not,
+`Meta.secrets_dir` set or not, any `env_prefix`, any number of fields (required, defaulted or with a default_factory; no explicit
+variable name, one, a tuple or a list of names; any field names, **including every name the template uses itself** — a field is a
+keyword parameter of the generated function and so bound from the start) — the body `EnvWizard._create_methods` writes for `__init__`
+(`DW/Model/GenEnv.lean`, compared byte for byte with the library's output — parameter list, body, `dict`, closure keys, globals —
+and its declared names with Python's `ast`, on every run) is well scoped on every control-flow path: every name it reads is a
+parameter, a local definitely bound before (`_name` / `_env_var` bound by the literal assignments at the head of the `try` body and
+the `e` of `except ParseError as e` included), a name of the closure or a global the generator fills (`_tp_<f>`, `_parser_<f>`,
+`_dflt_<f>`, `_dotenv_values` among them).  No builtin is needed. -/
+theorem C15_geninit_well_scoped (printable : Char → Bool) (g : EIn) : wellScoped printable g = true :=
+  wellScoped_all printable g
+
+open DW.GenEnv in
+/-- … and under Python's rule taken literally -/
+theorem C15_geninit_well_scoped_py (printable : Char → Bool) (g : EIn) : wellScopedPy printable g = true :=
+  wellScopedPy_all printable g
+
+open DW.GenEnv in
+/-- the defaults and annotations of the parameter list (`_secrets_dir=_secrets_dir_value`, `<f>:_tp_<f>=MISSING`) are evaluated when
+the function is defined: each of those names is a closure key or a global of the generated function -/
+theorem C15_geninit_defaults_bound (g : EIn) : defsBound g = true :=
+  defsBound_all g
+
+open DW.GenEnv in
+/-- the variable name(s) a field is read from enter the text as Python literals only (`repr`), which read back as the same text
+(`C15_repr_roundtrip`): no character of the name is ever part of the code.  (Before the repair 6eb73c4 a single name was pasted
+into an f-string literal — KNOWN_FINDINGS env-var-name-pasted-into-fstring.) -/
+theorem C15_geninit_name_is_literal (printable : Char → Bool) (fname n : S) (d : DW.GenLoad.DefaultKind) :
+    prefixed printable { name := fname, var := .one n, dflt := d } = "f\"{_env_prefix}\" + ".toList ++ pyRepr printable n ∧
+    varNameRepr printable { name := fname, var := .one n, dflt := d } = pyRepr printable n ∧
+    pyUnquote (pyRepr printable n) = some n :=
+  ⟨rfl, rfl, C15_repr_roundtrip printable n⟩
+
+open DW.GenEnv DW.GenLoad in
+/-- non-vacuity: the text the model writes for a class whose fields are called like the template's own variables, one of them read
+from a variable whose name holds a quote and braces; and the checker is not trivially true — without the `_vars = []` line the
+same body reads an unbound name -/
+example :
+    let g : EIn := { envPrefix := some "P_".toList, fields := [{ name := "_name".toList, var := .one "A\"{x}".toList },
+                                                              { name := "cls".toList, dflt := .value }] }
+    ((renderList 1 (genBody (fun _ => true) g)).drop 10).take 5 |>.map String.ofList =
+      ["    _name='_name'; _env_var='A\"{x}'; _var_name=f\"{_env_prefix}\" + 'A\"{x}' if _env_prefix else 'A\"{x}'",
+       "    if _name is not MISSING or (_name := lookup_exact(_var_name)) is not MISSING:",
+       "      self._name = _parser__name(_name)",
+       "    else:",
+       "      add(_vars, _name, _env_prefix, _env_var, _tp__name)"] := by
+  decide +kernel
+
+open DW.GenEnv DW.GenLoad in
+example :
+    let g : EIn := { fields := [{ name := "x".toList }] }
+    (checkList (genScope (fun _ => true) g) (params g) (genBody (fun _ => true) g)).isSome = true ∧
+    (checkList (genScope (fun _ => true) g) (params g) ((headStmts g).dropLast ++ (fieldBlock (fun _ => true) g ++ GenEnv.tailStmts))).isSome = false := by
   decide +kernel
 
 end DW.Props.C15
